@@ -119,6 +119,23 @@ Example reject_in_addpre_nonvacuous :
   map g_fired (pipes (srun sock_init ops)) = [[EV_ADD_PRE; EV_REM_POST]].
 Proof. vm_compute. repeat split; reflexivity. Qed.
 
+(* What the model also shows (outside C14's words; reported as a defect of the pinned tree, key
+   pipe-start-overtaken-by-reap): nothing orders pipe_reap after *_start_pipe.  A pipe closed by
+   another thread right after the closed-check is torn down completely -- protocol pipe_close and
+   pipe_stop, statistics unregistered, removed from the socket -- and only THEN handed to the
+   protocol's pipe_start (and its statistics registered) by the start thread.  The events are
+   ADD_PRE, REM_POST, as the theorems above demand; the memory-safety consequence (statistics node and
+   protocol list entry of a freed pipe) was reproduced on the library under ASan with exactly this
+   schedule (`racestart` in harness/wb_pipeev.c). *)
+Example startup_overtaken_by_teardown_witness :
+  let ops := [ONotify 1 true; ONotify 3 true; OCreate; OStart 0; OCbRead 0 WStart; OCbEnter 0 WStart; OCbExit 0 WStart;
+              OCheck 0;                                  (* not closed: go on to pipe_start *)
+              OClose 0; OReap 0; OReap 0; OCbRead 0 WReap; OCbEnter 0 WReap; OCbExit 0 WReap; OReap 0; OReap 0] in
+  map p_rpc (pipes (srun sock_init ops)) = [RDone] /\ map p_pstarted (pipes (srun sock_init ops)) = [false] /\
+  map p_pstarted (pipes (srun sock_init (ops ++ [OProto 0 true]))) = [true] /\
+  map g_fired (pipes (srun sock_init (ops ++ [OProto 0 true; OCbRead 0 WStart; OCbEnter 0 WStart]))) = [[EV_ADD_PRE; EV_REM_POST]].
+Proof. vm_compute. repeat split; reflexivity. Qed.
+
 (* ------------------------------------------------------------------------------------ *)
 (* 4. ONE PIPE PER DIALER.  In every history (both variants of the two repairs, any
    settings, any draws, any result codes, close at any point) a dialer holds at most one
@@ -155,6 +172,27 @@ Theorem redial_delay_bounded : forall fixmax wide inir maxr ops d,
   forall dl i m, In (dl, i, m) (g_delays d) -> (0 <= dl /\ (dl < Z.max i m \/ (dl = 0 /\ Z.max i m = 0)))%Z.
 Proof. exact delay_bounded. Qed.
 Print Assumptions redial_delay_bounded.
+
+(* ... and for the tree as it is now (both repairs present: the flags regenerated from the source are
+   true, otherwise this proof no longer checks): NO condition on when the options are changed, any
+   durations 0 <= t <= INT32_MAX *)
+Theorem redial_delay_bounded_holds : forall inir maxr ops d,
+  (0 <= inir <= INT32_MAX)%Z -> (0 <= maxr <= INT32_MAX)%Z -> Forall op_in_range ops ->
+  d = drun C14_RECONNMAX_RESETS C14_BACKOFF_WIDE (dialer_init inir maxr) ops ->
+  g_ovf d = false /\ (0 <= d_curr d <= Z.max (d_inir d) (d_maxr d))%Z /\
+  forall dl i m, In (dl, i, m) (g_delays d) -> (0 <= dl /\ (dl < Z.max i m \/ (dl = 0 /\ Z.max i m = 0)))%Z.
+Proof. exact delay_bounded_repaired. Qed.
+Print Assumptions redial_delay_bounded_holds.
+
+Example redial_delay_holds_nonvacuous :
+  (* the maximum lowered to 0 in the middle of a back-off, huge times *)
+  Forall op_in_range midchange_run /\
+  map fst (map fst (firstn 2 (g_delays (drun C14_RECONNMAX_RESETS C14_BACKOFF_WIDE (dialer_init 10 1000) midchange_run)))) = [9; 0]%Z /\
+  g_ovf (drun C14_RECONNMAX_RESETS C14_BACKOFF_WIDE (dialer_init 1073741824 2147483647) overflow_run) = false.
+Proof.
+  split; [|vm_compute; split; reflexivity].
+  unfold midchange_run, fail_round. repeat (constructor; [simpl; try exact I; unfold INT32_MAX; split; discriminate|]). constructor.
+Qed.
 
 Example redial_delay_nonvacuous :
   let ops := [DStart false; DConnDone 6%N 0; DConnCb 123456789%Z; DTimerFire; DTimerCb; DConnDone 5%N 0; DConnCb 77%Z;
@@ -198,7 +236,10 @@ Theorem redial_delay_midchange_refuted :
   (C14_RECONNMAX_RESETS = false ->
      hd_error (g_delays (drun C14_RECONNMAX_RESETS C14_BACKOFF_WIDE (dialer_init 10 1000) midchange_run)) = Some (999, 10, 0)%Z) /\
   hd_error (g_delays (drun true C14_BACKOFF_WIDE (dialer_init 10 1000) midchange_run)) = Some (9, 10, 0)%Z.
-Proof. split; [intros _|]; vm_compute; reflexivity. Qed.
+Proof.
+  split; [|vm_compute; reflexivity].
+  destruct C14_RECONNMAX_RESETS; intros H; [discriminate H|]. vm_compute. reflexivity.
+Qed.
 Print Assumptions redial_delay_midchange_refuted.
 
 (* `d_currtime *= 2` overflows int32 for configured times of 2^30 ms and more (UBSan on the
@@ -207,7 +248,10 @@ Theorem redial_backoff_overflow_refuted :
   (C14_BACKOFF_WIDE = false ->
      g_ovf (drun C14_RECONNMAX_RESETS C14_BACKOFF_WIDE (dialer_init 1073741824 2147483647) overflow_run) = true) /\
   g_ovf (drun C14_RECONNMAX_RESETS true (dialer_init 1073741824 2147483647) overflow_run) = false.
-Proof. split; [intros _|]; vm_compute; reflexivity. Qed.
+Proof.
+  split; [|vm_compute; reflexivity].
+  destruct C14_BACKOFF_WIDE; intros H; [discriminate H|]. vm_compute. reflexivity.
+Qed.
 Print Assumptions redial_backoff_overflow_refuted.
 
 (* ------------------------------------------------------------------------------------ *)
